@@ -45,6 +45,8 @@ var c09Msgs = []c09Msg{
 	// the relay application id with the largest 24-bit command code: as an answer this index is the
 	// closest neighbour of the catch-all's internal key {0xffffffff, 0xffffffff, false}
 	{Priv: true, App: 0xffffffff, Code: 16777215, Short: "XE", OtherApp: 0, OtherCode: 999, OtherName: "XP"},
+	// a private command the dictionary gives no short name at all (its name key is the bare suffix)
+	{Priv: true, App: 0, Code: 997, Short: "", OtherApp: 7, OtherCode: 999, OtherName: "XP"},
 	// a private command whose short name is not all upper case
 	{Priv: true, App: 0, Code: 998, Short: "Hm", OtherApp: 7, OtherCode: 999, OtherName: "XP"},
 	// commands that exist only in an application the AVP parent table leads to
@@ -64,6 +66,7 @@ func c09Dict(m c09Msg) *dict.Parser {
 		x := `<?xml version="1.0"?><diameter><application id="0" name="Priv">
 <command code="999" short="XP" name="X-Private"><request><rule avp="P-Note" required="false"/></request><answer><rule avp="P-Note" required="false"/></answer></command>
 <command code="16777215" short="XE" name="X-Experimental"><request><rule avp="P-Note" required="false"/></request><answer><rule avp="P-Note" required="false"/></answer></command>
+<command code="997" name="No-Short-Name"><request><rule avp="P-Note" required="false"/></request><answer><rule avp="P-Note" required="false"/></answer></command>
 <command code="998" short="Hm" name="Home-Made"><request><rule avp="P-Note" required="false"/></request><answer><rule avp="P-Note" required="false"/></answer></command>
 <command code="280" short="WD" name="Watch-Dog"><request><rule avp="P-Note" required="false"/></request><answer><rule avp="P-Note" required="false"/></answer></command>
 <avp name="P-Note" code="9901" must="M"><data type="UTF8String"/></avp></application></diameter>`
@@ -408,6 +411,9 @@ func runC09(ctx *ev.Ctx) {
 					// the other command flag bits rotate with the case: dispatch looks at R only
 					extras := []uint8{0, 0x40, 0x10, 0x20, 0x7f}
 					for caseReg := 0; caseReg <= 2; caseReg++ {
+						if caseReg > 0 && c09Msgs[mi].Short == "" {
+							continue // no letters to swap
+						}
 						cs := C09Case{Msg: mi, Req: req, Subset: sub, Rereg: rr, Extra: extras[(sub+rr+1+mi)%len(extras)], CaseReg: caseReg}
 						ctx.Eval(ev.HS(cs.Desc()))
 						if n%4000 == 0 {
@@ -468,7 +474,7 @@ func runC09(ctx *ev.Ctx) {
 	}
 	ctx.Set("histories", hn)
 	ctx.Set("distinct_selected_handlers", len(outcomes)+1)
-	ctx.Rule = "histories: every sequence of <=5 (thorough 6) operations over {register one of the eight keys with a fresh handler, dispatch, dispatch during which the selected handler panics and the caller recovers as the serve loop does (at most once)} ending in a dispatch, replayed on one ServeMux with every dispatch compared with a reference model (map key -> latest handler; index, then name, then catch-all); AND the complete decision table: for 9 message keys (a private command whose short name is mixed-case, application 0xffffffff with command code 2^24-1, base CE, application CC, RA under Gx which redefines it, RA under S6a which resolves through the base dictionary, and three messages carrying a private dictionary whose base application defines a command the default dictionary lacks and names code 280 differently; plus three (application, code) pairs whose command exists only in an application that the AVP parent table - not command lookup - leads to: only the catch-all may see those) x request/answer (the other command flag bits P, E, T and the reserved bits rotate with the case: only R selects; every other message was read off a stream as a different command and had its header rewritten before dispatch): all 2^8 subsets of the registrations {index K, index with other application, other code, other R bit, name of K, name with the other suffix, name of another command, ALL}, and every single re-registration of a present key with a second handler; each of these without, before and after a registration under the short name with the case of its letters swapped (no command's name: it must stay inert); the handler that fires and the number of error reports are compared with the reference decision (index, then name, then catch-all, else exactly one report)."
+	ctx.Rule = "histories: every sequence of <=5 (thorough 6) operations over {register one of the eight keys with a fresh handler, dispatch, dispatch during which the selected handler panics and the caller recovers as the serve loop does (at most once)} ending in a dispatch, replayed on one ServeMux with every dispatch compared with a reference model (map key -> latest handler; index, then name, then catch-all); AND the complete decision table: for 10 message keys (a private command without a short name, one whose short name is mixed-case, application 0xffffffff with command code 2^24-1, base CE, application CC, RA under Gx which redefines it, RA under S6a which resolves through the base dictionary, and three messages carrying a private dictionary whose base application defines a command the default dictionary lacks and names code 280 differently; plus three (application, code) pairs whose command exists only in an application that the AVP parent table - not command lookup - leads to: only the catch-all may see those) x request/answer (the other command flag bits P, E, T and the reserved bits rotate with the case: only R selects; every other message was read off a stream as a different command and had its header rewritten before dispatch): all 2^8 subsets of the registrations {index K, index with other application, other code, other R bit, name of K, name with the other suffix, name of another command, ALL}, and every single re-registration of a present key with a second handler; each of these without, before and after a registration under the short name with the case of its letters swapped (no command's name: it must stay inert); the handler that fires and the number of error reports are compared with the reference decision (index, then name, then catch-all, else exactly one report)."
 	ctx.Assume = []string{"exact-index and name registrations are judged for commands the dictionary defines (incoming messages have passed ReadMessage); for undefined commands only the catch-all / error-report rows are judged"}
 }
 
